@@ -118,7 +118,7 @@ func (a *aggregate) write() error {
 		"histograms":                     a.tags,
 		"scheduler_steps":                a.steps,
 		"simulated_time_s":               float64(a.simNs) / 1e9,
-		"simulated_time_note":            "sum of fake-clock jumps to context deadlines; the library reads no clock, so simulated time is not a meaningful coverage measure here",
+		"simulated_time_note":            "50 us of simulated time per scheduler step plus the fake-clock jumps to context deadlines (12 h + the plan's offset each); the library reads no clock, so simulated time is not a meaningful coverage measure here",
 		"runs_per_hour":                  int(float64(a.evaluations) / (a.exploreWall + 1e-9) * 3600),
 		"seeds":                          fmt.Sprintf("run i uses seed mix(VERIF_SEED=%d, property, tier, i), i in [0,n) per flavour", a.seed),
 		"components_real":                a.plan.Real,
